@@ -75,7 +75,7 @@ let run_P (l : string) : string =
   let bl' = List.filter (fun (k, _) -> not (is_slot k)) bl in
   let line = e2_show ((((tr', bl'), now), ended), stuck) in
   let inline_mode = BigZ.sign (big_of_z mode) < 0 in
-  (match replay_prefix (modelA_init inline_mode cap (nat_of_int 0) ndisp true) alog (nat_of_int 0) with
+  (match replay_prefix (modelA_init inline_mode cap (nat_of_int 0) ndisp false) alog (nat_of_int 0) with
    | Inl k -> Printf.sprintf "AREJECT@%d/%d %s" (int_of_nat k) (List.length alog) line
    | Inr _ -> line)
 
